@@ -3,7 +3,9 @@
   Props/C16Ieee.lean (the IEEE / real-analysis instantiations) and Props/C16IeeeBezierDiverge.lean (F23: the Bezier
   flattening loop diverges in f32 on a finite input) and Props/C16IeeeCut.lean (where the re-projected end point lies in
   f32: rounding-error bounds for the cut and the extension) and Props/C16IeeeCut2.lean (the range of the cut parameter with
-  the f32 <-> f64 conversions proved exact / correctly rounded, Lemmas/FloatErrCvt.lean). All in namespace Rosu.C16.
+  the f32 <-> f64 conversions proved exact / correctly rounded, Lemmas/FloatErrCvt.lean) and Props/C16LinearRef.lean (the harness's
+  reference for all-linear control points, `ref_linear_natural`, is what the model's `calculate_path` computes). All in
+  namespace Rosu.C16.
 -/
 import RosuModel.Props.C16Surplus
 import RosuModel.Props.C16Ieee
@@ -13,3 +15,4 @@ import RosuModel.Props.C16IeeeAdjWitness
 import RosuModel.Props.C16IeeeBezierDiverge
 import RosuModel.Props.C16IeeeCut
 import RosuModel.Props.C16IeeeCut2
+import RosuModel.Props.C16LinearRef
